@@ -14,14 +14,14 @@ pub static DEF: CheckDef = CheckDef {
     id: "C01",
     run: run_c01,
     replay: replay_c01,
-    rule: "layer 1: every register-only encoding, translated once and called for all (A, operand, F) / all 2^16 / all SP x e8 values; layer 2: every memory-accessing encoding (loads/stores via BC/DE/HL/HL+-, LDH, LD (nn), ALU (HL), INC/DEC (HL), LD (HL),n, CB (HL), PUSH/POP, CALL/RET/RETI/RST, LD (nn),SP) with the pointer register swept over all 65536 values (quick: every region boundary +-2 plus every 5th address); layer 3: proptest-generated straight-line blocks of 1..32 instructions closed by every kind of terminator, placed in bank 0, in a switchable bank, ending on the last byte of a region or running through 0x4000, from initial cycles 0 or 5. Each case runs interpreter::run_code_block on one core and translate+call on an identical core; compared: AF BC DE HL SP PC as full 32-bit fields, status class, ordered bus-write trace, all RAM/I-O/bank/DMA/serial state. Non-trivial = the block changes something besides PC; distinct by hash(block bytes, placement, initial registers) for generated cases, by construction for enumerated tuples.",
+    rule: "layer 1: every register-only encoding, translated once and called for all (A, operand, F) / all 2^16 / all SP x e8 values; layer 2: every memory-accessing encoding (loads/stores via BC/DE/HL/HL+-, LDH, LD (nn), ALU (HL), INC/DEC (HL), LD (HL),n, CB (HL), PUSH/POP, CALL/RET/RETI/RST, LD (nn),SP) with the pointer register swept over all 65536 values (quick: every region boundary +-2 plus every 5th address); layer 3: proptest-generated straight-line blocks of 1..32 instructions closed by every kind of terminator, placed in bank 0, in a switchable bank, ending on the last byte of a region or running through 0x4000, from initial cycles 0 or 5; layer 4: every encoding (with three immediate values) behind context prefixes that bring the block's cycle count to every value around the nibble carries 16 and 32 - from pending counts 0 and 5, ending in a 1-, 2- or 3-cycle instruction - so that emitted code which depends on host flags or scratch registers left by the preceding instruction shows. Each case runs interpreter::run_code_block on one core and translate+call on an identical core; compared: AF BC DE HL SP PC as full 32-bit fields, status class, ordered bus-write trace, all RAM/I-O/bank/DMA/serial state; every 8th translated call is entered through a shim that plants sentinels in the host's callee-saved registers and checks them and the stack pointer on return. Non-trivial = the block changes something besides PC; distinct by hash(block bytes, placement, initial registers) for generated cases, by construction for enumerated tuples.",
     assumptions: &[
         "the interpreter is the reference (itself pinned to the SM83 by C05/C06)",
         "F low nibble 0 and register fields <= 0xFFFF on entry; no undefined opcode inside a block",
         "cartridge MBC1+32KiB RAM, 8 ROM banks; unrelated ROM bytes are HALT",
         "status 0x80 left in r14b by BIT/rotate templates is treated like 0 by Core::run_code_block and is not a divergence",
     ],
-    required_classes: &["l1-alu", "l2-ptr", "l3-blocks", "term-ret", "term-call", "term-jr", "term-halt", "place-bankN", "place-region-end", "ptr-io", "ptr-rom"],
+    required_classes: &["l1-alu", "l2-ptr", "l3-blocks", "l4-context", "term-ret", "term-call", "term-jr", "term-halt", "place-bankN", "place-region-end", "ptr-io", "ptr-rom"],
     exhaustive: false,
 };
 
@@ -1075,8 +1075,106 @@ fn enum_mine(ctx: &Ctx, idx: usize) -> bool {
     }
 }
 
+// ---------------------------------------------------------------------------
+// layer 4: every encoding behind a context prefix. The emitted code of one guest
+// instruction must not depend on host state left by the previous one (host flags
+// after the cycle-counter add, scratch registers). The prefixes bring the block's
+// cycle count to every value around the nibble carries 16 and 32 - from pending
+// counts 0 and 5, ending in a 1-, 2- or 3-cycle instruction - before the
+// instruction under test runs.
+
+fn context_prefixes() -> Vec<(Vec<u8>, u32)> {
+    let mut v = Vec::new();
+    for total in [10u32, 11, 12, 14, 15, 16, 17, 18, 30, 31, 32, 33] {
+        for (last, cost) in [(vec![0x00u8], 1u32), (vec![0x16, 0xc4], 2), (vec![0x11, 0x00, 0xc4], 3)] {
+            let mut code = vec![0x00u8; (total - cost) as usize];
+            code.extend(last);
+            v.push((code, total));
+        }
+    }
+    v
+}
+
+fn run_context_layer(rec: &mut Rec, scope: Scope) {
+    // translation-heavy: a few shards share it
+    let workers: Vec<usize> = if rec.ctx.nshards >= 8 { vec![1, 5, 9, 13] } else { vec![0] };
+    let my = match workers.iter().position(|w| *w % rec.ctx.nshards == rec.ctx.shard) {
+        Some(k) => k,
+        None => return,
+    };
+    let prefixes = context_prefixes();
+    let mut encodings: Vec<Vec<u8>> = Vec::new();
+    for op in 0..=255u8 {
+        if sm83::is_undefined(op) {
+            continue;
+        }
+        if op == 0xcb {
+            for cb in 0..=255u8 {
+                encodings.push(vec![0xcb, cb]);
+            }
+            continue;
+        }
+        match sm83::length(op) {
+            1 => encodings.push(vec![op]),
+            2 => {
+                for imm in [0x00u8, 0x80, 0xff] {
+                    encodings.push(vec![op, if op == 0x10 { 0 } else { imm }]);
+                }
+            }
+            _ => {
+                for imm in [(0x00u8, 0x00u8), (0x80, 0xc0), (0xff, 0xff)] {
+                    encodings.push(vec![op, imm.0, imm.1]);
+                }
+            }
+        }
+    }
+    let mut p = JPair::new();
+    let thorough = rec.ctx.tier == Tier::Thorough;
+    let mut n = 0usize;
+    for (ei, enc) in encodings.iter().enumerate() {
+        if ei % workers.len() != my || rec.too_many() {
+            continue;
+        }
+        for (pi, (prefix, _total)) in prefixes.iter().enumerate() {
+            // quick: a rotating third of the prefixes per encoding (every prefix meets every template family)
+            if !thorough && (pi + ei) % 3 != 0 {
+                continue;
+            }
+            for f in [0x00u32, 0xf0] {
+                for cyc in [0u32, 5] {
+                    let mut code = prefix.clone();
+                    code.extend(enc.iter());
+                    if !sm83::is_terminator(enc[0]) {
+                        code.extend([0xc3, 0x00, 0x02]);
+                    }
+                    let c = BlockCase { pc: 0x0300, code, regs: Regs { af: 0x1200 | f, bc: 0xc320, de: 0xc400, hl: 0xc210, sp: 0xdff0, pc: 0x0300, cycles: cyc }, cells: vec![] };
+                    n += 1;
+                    if n % 64 == 1 {
+                        rec.current(&block_json(&c).to_string());
+                    }
+                    rec.eval(1);
+                    rec.class("l4-context", 1);
+                    match run_block(&mut p, &c, scope) {
+                        Ok(info) => {
+                            if info.changed {
+                                rec.nontrivial_direct(1);
+                            }
+                        }
+                        Err(fl) => {
+                            if fl.sig != "reference-panic" {
+                                rec.violation(&format!("context-{}", fl.sig), block_json(&c), fl.detail);
+                            }
+                        }
+                    }
+                }
+            }
+        }
+    }
+}
+
 fn run_c01(rec: &mut Rec) {
     run_items(rec, Scope::Effect);
+    run_context_layer(rec, Scope::Effect);
     if rec.ctx.shard == 0 {
         let cases = rec.ctx.tier.pick(40_000u32, 3_000_000);
         run_generated_blocks(rec, Scope::Effect, cases);
